@@ -464,7 +464,42 @@ def c06():
     }
 
 
+def c13():
+    import suite_cpp
+    import suite_bits
+    return {
+        "props_file": "Props/C13.v",
+        "theorems": ["C13_popcount", "C13_unpack", "C13_unpack_1d", "C13_unpack_negative",
+                     "C13_centroid_unpacked", "C13_centroid_packed", "C13_centroid_packed_nonbinary",
+                     "C13_centroid_packed_len5", "C13_isim", "C13_arr_vec", "C13_argmin",
+                     "C13_most_dissimilar", "C13_most_dissimilar_shape", "C13_nonvacuous",
+                     "C13_nf_ok_nonmultiple"],
+        "model_files": ["Model/Cpp.v", "Model/ObsCpp.v", "Model/Sim.v"],
+        "suites": [suite_cpp.suite_cpp_corpus, suite_cpp.suite_cpp, suite_cpp.suite_cpp_e2e, suite_bits.suite_bits],
+        "search": suite_cpp.search_c13,
+        "replay": suite_cpp.replay_c13,
+        "level": "proof",
+        "rule": "bblean/csrc/similarity.cpp is compiled UNMODIFIED from /repo's working tree on every run "
+                "(g++ -O3 -march=nocona -mtune=haswell -mpopcnt, the flags of setup.py) against the pybind11 "
+                "stand-in of /verif/cpp and called through ctypes with the data placed at addresses = "
+                "0,1,4,8,33,56 (mod 64); per kernel (popcount, unpack, centroid-from-sum, iSIM-from-sum, "
+                "array-vs-vector Tanimoto, most-dissimilar) random and boundary inputs (row widths 1..256 bytes "
+                "on both sides of the 64-byte fast path, n_features of every residue mod 8 and beyond the row "
+                "width, counts up to 2^33+ and 2^53+1, uint64 wrap-around, ties, all-zero/all-one rows) are "
+                "compared bit-for-bit with bblean._py_similarity (the statement itself) and with Model/Cpp.v; "
+                "cpp-e2e replaces the names bblean takes from _cpp_similarity by the compiled kernels and "
+                "compares whole clusterings with the fallback; bits ties Model/Sim.v to the NumPy kernels; "
+                "non-trivial = distinct input",
+        "trusted": COMMON_TRUST + ["the pybind11 stand-in /verif/cpp/pybind11/*.h and shim.cpp (pointer/shape "
+                                   "plumbing only, no kernel logic) stand for pybind11's array_t; g++ with the "
+                                   "setup.py flags on this x86-64 host stands for the wheel build",
+                                   "Model/Cpp.v is a hand transcription of the C++ loops, tied by correspondence only"],
+        "assumptions": ["the [aligned] flag and every input size are universally quantified; counts < 2^63 (int64 argument)"],
+    }
+
+
 SPECS = {
+    "C13": c13,
     "C06": c06,
     "C05": c05,
     "C14": c14,
